@@ -101,7 +101,13 @@ def compare_results(ep, ep2, nvals, etot, fmax):
             continue
         x, y = fa.get(k, Fraction(0)), fb.get(k, Fraction(0))
         if k.startswith("rer"):
-            tol = tol_abs * 2 / tot + Fraction(2, 1000)
+            # a ratio num / T with T = ren + nren of step B, which can nearly cancel when exported energy weighs more than the
+            # delivered one (user factor sets): an error e on the weighted energies moves the ratio by about (e / |T|) (1 + 2 |ratio|);
+            # when T itself is within the written precision the ratio says nothing
+            T = abs(fa.get("balance/we/b/0", Fraction(0)) + fa.get("balance/we/b/1", Fraction(0)))
+            if T <= 4 * tol_abs:
+                continue
+            tol = max(tol_abs * 2 / tot, tol_abs / T * (1 + 2 * abs(x))) + Fraction(2, 1000)
         elif k.startswith("balance_m2"):
             tol = tol_abs / max(Fraction(ep["arearef"]), Fraction(1, 1000)) + abs(x) * Fraction(1, 10 ** 4)
         else:
